@@ -96,7 +96,9 @@ type Protect struct {
 	Key   []byte
 	IV    []byte // GCM: 4-byte implicit nonce part; CBC: unused after TLS 1.1 (explicit IV per record)
 	MAC   []byte
-	gcm   cipher.AEAD
+	// ExtraPad: CBC only - whole blocks of padding beyond the minimum (the padding length byte allows up to 255)
+	ExtraPad int
+	gcm      cipher.AEAD
 	blk   cipher.Block
 }
 
@@ -201,6 +203,9 @@ func (p *Protect) Seal(seq [8]byte, typ byte, vers uint16, plain, explicit []byt
 	pad := 16 - (len(body)+1)%16
 	if pad == 16 {
 		pad = 0
+	}
+	for k := 0; k < p.ExtraPad && pad+16 <= 255; k++ {
+		pad += 16
 	}
 	for i := 0; i <= pad; i++ {
 		body = append(body, byte(pad))
